@@ -114,8 +114,14 @@ func (e *lfEngine) doCall(fr *lfFrame, st *lfState, x *ssa.Call, k func(st *lfSt
 		}
 	}
 	if len(usable) == 0 {
-		if len(targets) > 0 && e.tracksResult(cc.Signature()) && e.quiet == 0 {
-			e.unknownObl(fr, x, "call depth: "+shortName(name), "inlining bound reached or recursion; result unknown")
+		// inlining bound reached (or recursion): the callees are analysed on their own, with
+		// unconstrained arguments — every obligation inside them is still decided, for all
+		// inputs — and the result is unknown here; anything that needs it fails where it is used
+		for _, t := range targets {
+			if t.Blocks != nil && !e.scheduled[t] && !e.analysed[t] {
+				e.scheduled[t] = true
+				e.pending = append(e.pending, t)
+			}
 		}
 		// unknown call: forget the heap unless the callee is known not to write it
 		st2 := st
